@@ -298,7 +298,7 @@ def run(tier):
     chk.assumptions = [
         "footprint = bytes held from the simulated OS (exact); 'arbitrarily large N' is N = %d (sample: N = 200): no model of the allocator's internal state shows periodicity yet (DlHeap.tla is future work)" % reps,
         "SteadyState: memory still held at a repetition mark after the first N/2 repetitions <= the most ever held during the first N/2 repetitions + one granularity (a heap that is trimmed after some repetitions and not after others - the OS placed a segment differently - is not growing); runs whose marks after repetition 2 exceed the marks of repetitions 1..2 by more than a granularity are counted as runs_with_transient_after_rep2, not judged",
-        "Envelope (workload runs only): footprint <= 2 x peak padded demand + 2 x trim threshold, padded demand of a block = size + 2 x align + 256 + granularity",
+        "Envelope: footprint <= 2 x peak padded demand + 2 x trim threshold, padded demand of a block = size + 2 x align + 256 + granularity; judged ONLY on allocate-all/free-all workloads (there every block can at worst have a mapping of its own, which the padding covers); on churn, queue and multi-threaded runs blocks of different sizes come and go while others stay, external fragmentation of any allocator can exceed a fixed factor there, so those runs are judged by NoGratuitousMap, ReleaseOnce and (fixed OS policy) SteadyState",
         "NoGratuitousMap exempts requests above a direct-mmap threshold only if the code under test has such a path (constant MMAP_THRESHOLD / fn mmap_alloc in dlmalloc.rs); the pinned port has none, so every request is judged",
         "NoGratuitousMap: an OS request is gratuitous if size + 2 x align + 256 bytes fit into one block-free extent of a single OS-granted piece",
         "real-OS runs (raw syscall wrappers against the real kernel): footprint = growth of the process' VmSize, which also contains whatever the recorder itself maps (its output buffer is pre-reserved); only SteadyState is judged there (60 repetitions, baseline 30)",
